@@ -291,7 +291,12 @@ def make_pairing(nentries, props=("C17",), known=()):
                 info=repr(d))
         E.check("cwd-restored-after-iteration", json_identical(fake.cwd, init), info="chdir calls %r" % (fake.trace,))
         E.goal("identical-blobs", any(s_[5] for s_ in spec))
-        E.check("working-tree-files-opened-inside-repo-dir", all(c == start for _, c in opened), info=repr(opened))
+        # entry paths are relative to the repository ROOT, so that is where the
+        # working-tree files must be opened from -- also when the caller named a
+        # sub-directory of the repository as repo_dir (the oracle used to
+        # demand `start`, i.e. it had copied the code's behaviour)
+        E.check("working-tree-files-opened-from-the-repository-root", all(c == ROOT for _, c in opened),
+                info="repo_dir given %r, repository root %r, files opened (path, cwd): %r" % (start, ROOT, opened))
     return h, {}
 
 
